@@ -211,6 +211,28 @@ def run(ctx):
                    '' if ok else '%s decides wrongly which results become JSON text: %s (a JSON null must stay SQL NULL: as the text \'null\' it is NOT NULL and casts to 0)' % (qual, '; '.join(wrong)),
                    node=st, expected='if type(result) in (list, dict): result = json.dumps(result)')
     ctx.floor('C29-NULLTEXT', nnt, 1, 'serialisation guards in the JSON1 stand-ins')
+    # ---------------------------------------------------------------- WRAP
+    # the builder hands py_array_index the absolute position it computed (length - k for arr[-k]); a negative position means "before the first
+    # item" and must give NULL like any other index out of range -- Python's own list indexing would wrap it around to the end again.
+    # Scenario: index < 0 -- the subscript on the array is unreachable.
+    from ..typestate import scenario_edges
+    pai = repo.fn('pony.orm.dbproviders.sqlite', 'py_array_index'); g = cg.cfg(pai)
+    arrp, idxp = pai.params[0], pai.params[1]
+    def neg_atom(text, node):
+        t = text.replace(' ', '')
+        if t == idxp + '<0': return True
+        if t == idxp + '>=0' or t == '0<=' + idxp: return False
+        if isinstance(node, ast.Call) and dotted(node.func) == 'isinstance' and dotted(node.args[0]) == idxp: return True
+        if t in (idxp + 'isNone',): return False
+        if t in (idxp + 'isnotNone',): return True
+        return None
+    live = g.reach([g.entry], edge_ok=scenario_edges(g, pai.node, neg_atom, resolve=False))
+    subs = [x for x in g.nodes if x.kind == 'stmt' and x.ast is not None and any(isinstance(s_, ast.Subscript) and dotted(s_.value) == arrp and dotted(s_.slice) == idxp for s_ in ast.walk(x.ast))]
+    ctx.need(subs, 'C29-WRAP: py_array_index no longer subscripts the array')
+    ok = not any(x.id in live for x in subs)
+    ctx.ob('C29-WRAP.negative-position-does-not-wrap-around', pai, subs[0].ast, ok,
+           '' if ok else 'py_array_index evaluates array[index] for a negative computed position: arr[-2] on a one-element array (position 1 - 2 = -1) returns the last item '
+           'instead of NULL', node=subs[0].ast)
 
 
 def quote_class_reason(pattern, Q):
@@ -235,6 +257,7 @@ def quote_class_reason(pattern, Q):
 
 
 MUTANTS = [
+    dict(id='C29-wrap', file='pony/orm/dbproviders/sqlite.py', fn='py_array_index', old="    if isinstance(index, int) and index < 0:\n        return None  # the absolute position was computed as length - k: the item lies before the start of the array\n", new="", expect='C29-WRAP'),
     dict(id='C29-nt', file='pony/orm/dbproviders/sqlite.py', fn='py_json_extract', old="    if type(result) in (list, dict):", new="    if type(result) not in (str, int, float):", expect='C29-NULLTEXT'),
     dict(id='C29-nt2', file='pony/orm/dbproviders/sqlite.py', fn='py_json_extract', old="    if type(result) in (list, dict):", new="    if isinstance(result, (list, dict)):", expect='C29-NULLTEXT', benign=True),
     dict(id='C29-nc1', file='pony/orm/sqltranslation.py', fn='ArrayMixin.contains', old="                if not_in:\n                    return BoolExprMonad(['EQ', ['VALUE', 0], ['VALUE', 1]], nullable=False)\n                else:\n                    return BoolExprMonad(['EQ', ['VALUE', 1], ['VALUE', 1]], nullable=False)\n",
